@@ -996,6 +996,11 @@ def verify_contract(program, registry, con, timeout_ms=None, active_cases=None, 
                 v = Verdict(ob, "unknown", "skipped", 0.0, reason="two instances of this clause are already undecided (time budget)")
             else:
                 v = inc.solve(ob)
+            if v.status in ("refuted", "candidate") and ob.meta.get("adopted") and not ob.meta.get("expected"):
+                # proved under a loop contract adopted from a caller (the loop was moved into a helper): a failure says the
+                # adopted contract does not fit this code, not that the property is violated
+                v = Verdict(ob, "unknown", v.backend, v.secs, reason="fails under a loop contract adopted from the caller "
+                            "(contract/code shape mismatch)")
             if v.status in ("unknown", "candidate"):
                 undecided_count[ob.name] = undecided_count.get(ob.name, 0) + 1
             if v.status == "refuted":
